@@ -340,7 +340,7 @@ var heavyRe = regexp.MustCompile(`(?i)RECURSIVE|GENERATE_SERIES|PG_SLEEP|SLEEP`)
 // panics and hangs of the parser are not.
 func TestSQLParseAndExec(t *testing.T) {
 	cp := corpus(t)
-	vk.Check(t, 1600, 30000, func(rt *rapid.T, c *vk.Case) {
+	vk.Check(t, 1600, 16000, func(rt *rapid.T, c *vk.Case) {
 		eng, err := newScratchEngine()
 		if err != nil {
 			rt.Fatalf("scratch engine: %v", err)
